@@ -410,14 +410,18 @@ func runDkvTrace(c lib.Case) []string {
 					}
 					flushQ--
 					compactQ++
-					// mirror the model's id assignment: new level-0 tables in insertion order
+					// mirror the model's id assignment: new level-0 tables in insertion order; their contents (key, seq,
+					// marker, value of every entry, read back from the table file) are part of the observation: the
+					// driver prints the sealed memtables of the model's flush snapshot in the same form
+					var flushed []string
 					for _, ti := range db.VerifLevels().VerifLayout()[0] {
 						if _, ok := s.ids[ti.Table]; !ok {
 							s.ids[ti.Table] = s.nextID
 							s.nextID++
+							flushed = append(flushed, dumpTable(ti.Table))
 						}
 					}
-					out = append(out, fmt.Sprintf("flushcommit %d", n))
+					out = append(out, fmt.Sprintf("flushcommit %d tbl=%s", n, strings.Join(flushed, "|")))
 				}
 			case "c":
 				if compactQ == 0 {
